@@ -83,6 +83,11 @@ theorem FilesOK_of_current {s : St} (h : Inv s) (hu : s.users = ({ me := 0 } : S
     have := (h.tinv' ht).owner_ok
     rw [hu, hto, ← h1] at this
     exact this
+  uidNe := by
+    intro f hf ft hft
+    obtain ⟨_, _, t, ht, _, htu, _⟩ := (hc f hf).2 ft hft
+    rw [← htu]
+    exact h.uidNe t ht
   uids := by
     apply nodup_flatMap_uid F hk (fun f hf => (hc f hf).1)
     intro f hf g hg a ha b hb e
